@@ -350,7 +350,12 @@ func runRace(ctx *runner.Ctx, k cs) {
 	if !ctx.Quick() {
 		count = "600"
 	}
-	cmd := exec.Command("go", "test", "-race", "-vet=off", "-count="+count, "./racepass/")
+	args := []string{"test", "-race", "-vet=off", "-count=" + count}
+	if runner.RepoDir != "/repo" {
+		// scratch run against another checkout: the module file ./check generated for it
+		args = append(args, "-modfile="+os.Getenv("VERIF_WORK")+"/go.mod")
+	}
+	cmd := exec.Command("go", append(args, "./racepass/")...)
 	cmd.Dir = "/verif/harness"
 	cmd.Env = append(os.Environ(), "GOFLAGS=-mod=mod", "GOPROXY=off")
 	out, err := cmd.CombinedOutput()
